@@ -3,6 +3,25 @@ each property.  A unit may serve several properties; its obligations are
 generated once per check run."""
 
 UNITS = {
+    'C08': {
+        'functions': [],
+        'regex': ['lexer'],
+        'lemmas': [],
+        'level': 'other',
+        'explanation': 'Proved as single-variable regular-expression obligations over the live patterns (both '
+                       'PENMAN_RE and TRIPLE_RE): no alternative matches empty or starts with a blank; every '
+                       'non-blank character starts some match (coverage of the union); the ordered alternation '
+                       'chooses exactly the class the documented grammar assigns; token languages equal the '
+                       'documented productions (STRING outside N9); STRING is prefix-free; every quantifier is '
+                       'deterministic.  That finditer/_lex report the matches with the right line, column and '
+                       'text (T1 and the _lex loop) is decided by the bounded stand-in.',
+    },
+    'C04': {
+        'functions': ['penman.layout:_process_role', 'penman.layout:_process_atomic',
+                      'penman.layout:_interpret_node'],
+        'lemmas': [],
+        'level': 'other',
+    },
     'C15': {
         'functions': [
             'penman.graph:_ensure_colon', 'penman.graph:Graph.__init__', 'penman.graph:Graph.top',
